@@ -42,6 +42,7 @@ type Ctx struct {
 
 	copyChecked map[string]bool
 	deadErrs    *deadErrScan
+	onlyCmds    map[string]bool // restricts c07CommandsPropagate to these commands (shared use)
 }
 
 func (c *Ctx) pkgPaths() []string {
